@@ -12,9 +12,12 @@ LEVEL = "exploration"
 RULE = ("bounded-exhaustive programs: (in) every container-taking entry point of every class x every argument shape to "
         "depth 3: after the call EVERY container reachable from the user-held argument (and from the pairs list / iterable "
         "wrapper) is mutated; (out) every container-returning operation ((), values(), items(), getitem of slices, pop, popitem, "
-        "list pop, a child captured before del / clear / reset): the three detached views must be built-ins all the way "
+        "list pop, a child captured before del / clear / reset), each on a tree that was in the resource from the start AND on "
+        "one whose nested parts arrived later over scalars (reset, update/slice assignment, an outside writer, element by "
+        "element): the three detached views must be built-ins all the way "
         "down and every reachable container of the result is mutated (removed synced children through their own API); (copy) "
-        "x[k2]=x[k1], y[k]=x, y[k]=x[k1][k2], l.append(l[0]), l.insert(0, l[1]), extend(l) followed by mutation of source and "
+        "x[k2]=x[k1], y[k]=x, y[k]=x[k1][k2], y.update/reset/setdefault/extend/insert given a (not yet read) collection of "
+        "another resource as a value, l.append(l[0]), l.insert(0, l[1]), extend(l) followed by mutation of source and "
         "of copy; oracle: collection(), a fresh object and the resource are unchanged by those mutations; non-trivial = "
         "distinct (class, program, shape) cases")
 BOUNDS = {"quick": "12 JSON classes + 6 fake-store classes, 9 argument shapes", "thorough": "same with 16 shapes"}
@@ -171,11 +174,44 @@ def mutate_result(r, seen=None):
             mutate_result(x, seen)
 
 
-def case_out(c, name, fn, detached):
+ROUTES = ("file", "reset-over-flat", "update-over-flat", "outside-writer-over-flat", "elementwise-over-flat")
+
+
+def _flat(init):
+    """Same top-level shape, every nested container replaced by a scalar."""
+    if isinstance(init, dict):
+        return {k: (0 if isinstance(v, (dict, list)) else v) for k, v in init.items()}
+    return [(0 if isinstance(v, (dict, list)) else v) for v in init]
+
+
+def _arrive(c, init, route):
+    """The collection holding `init`, reached by different histories: present in the resource from the start, or merged
+    over a tree that so far held only scalars (reset / update / an outside writer / element by element)."""
+    if route == "file":
+        res = env.resource_for(c, init)
+        return res, res.make(c)
+    res = env.resource_for(c, _flat(init))
+    o = res.make(c)
+    o()  # the flat content is loaded: the in-memory tree has no nested node yet
+    if route == "reset-over-flat":
+        o.reset(copy.deepcopy(init))
+    elif route == "update-over-flat":
+        if isinstance(init, dict):
+            o.update(copy.deepcopy(init))
+        else:
+            o[0:len(init)] = copy.deepcopy(init)
+    elif route == "outside-writer-over-flat":
+        res.ext_write(copy.deepcopy(init))
+    elif route == "elementwise-over-flat":
+        for k, v in (init.items() if isinstance(init, dict) else enumerate(init)):
+            o[k] = copy.deepcopy(v)
+    return res, o
+
+
+def case_out(c, name, fn, detached, route="file"):
     init, _ = out_programs(env.kind_of(c))
-    res = env.resource_for(c, init)
+    res, o = _arrive(c, init, route)
     try:
-        o = res.make(c)
         r = fn(o)
         if detached and not model.is_plain(r):
             return ("not-detached", "%s returned %r which is not built-in data all the way down" % (name, r))
@@ -210,6 +246,14 @@ def copy_programs(kind_):
                                          lambda: x["k1"](), lambda: y["k1"]())[1:],
             "y.reset(x)": lambda x, y: (y.reset(x), lambda: x["k1"]["a"].append(9), lambda: y["k1"]["a"].append(8),
                                         lambda: x["k1"](), lambda: y["k1"]())[1:],
+            "y.update({k:x})": lambda x, y: (y.update({"k": x}), lambda: x.__setitem__("new", 1), lambda: y["k"].__setitem__("new2", 1),
+                                             lambda: x(), lambda: y["k"]())[1:],
+            "y.update(k=x)": lambda x, y: (y.update(k=x), lambda: x.__setitem__("new", 1), lambda: y["k"].__setitem__("new2", 1),
+                                           lambda: x(), lambda: y["k"]())[1:],
+            "y.reset({k:x})": lambda x, y: (y.reset({"k": x}), lambda: x.__setitem__("new", 1), lambda: y["k"].__setitem__("new2", 1),
+                                            lambda: x(), lambda: y["k"]())[1:],
+            "y.update({k:[x]})": lambda x, y: (y.update({"k": [x]}), lambda: x.__setitem__("new", 1), lambda: y["k"][0].__setitem__("new2", 1),
+                                               lambda: x(), lambda: y["k"][0]())[1:],
             "y.setdefault(k,x[k1])": lambda x, y: (y.setdefault("k", x["k1"]), lambda: x["k1"].__setitem__("new", 1),
                                                    lambda: y["k"].__setitem__("new2", 1), lambda: x["k1"](), lambda: y["k"]())[1:],
         }
@@ -223,6 +267,10 @@ def copy_programs(kind_):
                                    lambda: x[1](), lambda: x[2]())[1:],
         "y.extend(x)": lambda x, y: (y.extend(x), lambda: x[0].__setitem__("new", 1), lambda: y[-3].__setitem__("new2", 1),
                                      lambda: x[0](), lambda: y[-3]())[1:],
+        "y.reset([x])": lambda x, y: (y.reset([x]), lambda: x.append(9), lambda: y[0].append(8), lambda: x(), lambda: y[0]())[1:],
+        "y.extend([x])": lambda x, y: (y.extend([x]), lambda: x.append(9), lambda: y[-1].append(8), lambda: x(), lambda: y[-1]())[1:],
+        "y.insert(0,x)": lambda x, y: (y.insert(0, x), lambda: x.append(9), lambda: y[0].append(8), lambda: x(), lambda: y[0]())[1:],
+        "y[0]=x": lambda x, y: (y.__setitem__(0, x), lambda: x.append(9), lambda: y[0].append(8), lambda: x(), lambda: y[0]())[1:],
         "y.append(x)": lambda x, y: (y.append(x), lambda: x.append(9), lambda: y[-1].append(8), lambda: x(), lambda: y[-1]())[1:],
         "y+=x": lambda x, y: (y.__iadd__(x), lambda: x[1].append(9), lambda: y[-2].append(8), lambda: x[1](), lambda: y[-2]())[1:],
         "y.reset(x)": lambda x, y: (y.reset(x), lambda: x[1].append(9), lambda: y[1].append(8), lambda: x[1](), lambda: y[1]())[1:],
@@ -328,10 +376,12 @@ def run_task(task):
                 record(("error", "in:%s %r raised %s: %s" % (nm, sh, type(e).__name__, e)), "in:%s:shape%d" % (nm, i))
     _, outs = out_programs(kind_)
     for nm, (fn, detached) in outs.items():
-        try:
-            record(case_out(c, nm, fn, detached), "out:" + nm)
-        except Exception as e:  # noqa: BLE001
-            record(("error", "out:%s raised %s: %s" % (nm, type(e).__name__, e)), "out:" + nm)
+        for route in ROUTES:
+            tag = "out:" + nm + ("" if route == "file" else "@" + route)
+            try:
+                record(case_out(c, nm, fn, detached, route), tag)
+            except Exception as e:  # noqa: BLE001
+                record(("error", "%s raised %s: %s" % (tag, type(e).__name__, e)), tag)
     _, cps = copy_programs(kind_)
     for nm, fn in cps.items():
         try:
